@@ -178,6 +178,12 @@ frecipe('SeparableSum/L1.translated(a)+L1.translated(b)', ('rn',), 'pl', [DEF + 
                                    S.L1Norm(sp).translated(sp.element([-0.5]))))
 frecipe('SeparableSum/Huber(0.5)+Huber(2)', ('rn',), 'pl', [DEF + 'SeparableSum'], n=1)(
     lambda ctx, sp: S.SeparableSum(S.Huber(sp, 0.5), S.Huber(sp, 2.0)))
+# a summand with a finite gradient Lipschitz constant FIRST, one without a (finite) constant second
+frecipe('SeparableSum/L2sq+L1', ('rn',), 'pl', [DEF + 'SeparableSum'], n=1)(
+    lambda ctx, sp: S.SeparableSum(S.L2NormSquared(sp), S.L1Norm(sp)))
+frecipe('SeparableSum/Huber+KL', ('rn',), 'trans', [DEF + 'SeparableSum'], n=1,
+        pre=lambda ctx, x: [ctx.assume(v > 0) for v in flat(x.parts[1])])(
+    lambda ctx, sp: S.SeparableSum(S.Huber(sp, 0.5), S.KullbackLeibler(sp, prior=sp.element([2.0]))))
 frecipe('SeparableSum/power', ('rn',), 'pl', [DEF + 'SeparableSum'], n=1)(
     lambda ctx, sp: S.SeparableSum(S.L1Norm(sp), 2))
 frecipe('QuadraticForm/op+vec', ('rn',), 'pl', [DEF + 'QuadraticForm'],
@@ -307,6 +313,16 @@ frecipe('derived/QuadraticForm*v', ('rn',), 'pl', [FUN + 'FunctionalRightVectorM
     lambda ctx, sp: S.QuadraticForm(
         operator=odl.MatrixOperator(np.array([[2.0, 0.5], [0.5, 1.0]]), domain=sp, range=sp),
         vector=sp.element([1.0, -2.0])) * sp.element([2.0, -0.5]))
+frecipe('derived/QuadraticForm(op-only)*v', ('rn',), 'pl', [FUN + 'FunctionalRightVectorMult'],
+        value=lambda ctx, sp, x: (sp.element([2.0, -0.5]) * x).inner(
+            odl.MatrixOperator(np.array([[2.0, 0.5], [0.5, 1.0]]), domain=sp, range=sp)(sp.element([2.0, -0.5]) * x)))(
+    lambda ctx, sp: S.QuadraticForm(
+        operator=odl.MatrixOperator(np.array([[2.0, 0.5], [0.5, 1.0]]), domain=sp, range=sp))
+    * sp.element([2.0, -0.5]))
+frecipe('derived/QuadraticForm(op-only)*t', ('rn',), 'pl', [FUN + 'FunctionalRightVectorMult'])(
+    lambda ctx, sp: S.QuadraticForm(
+        operator=odl.MatrixOperator(np.array([[1.0, 2.0], [0.0, -1.0]]), domain=sp, range=sp))
+    * celem(ctx, sp, 't'))
 frecipe('derived/L2Norm*v', ('rn', 'discr'), 'sqrt', [FUN + 'FunctionalRightVectorMult'])(
     lambda ctx, sp: S.L2Norm(sp) * sp.element([2.0, -0.5]))
 frecipe('derived/Rosenbrock*v', ('rn',), 'pl', [FUN + 'FunctionalRightVectorMult'])(
